@@ -42,7 +42,8 @@ ASSUMPTIONS = [
 
 REQUIRED_CLASSES = ["node:builtin:abs", "node:builtin:round", "node:builtin:round+params", "node:builtin:divmod+params",
                     "node:call", "node:call+kwargs", "node:computed-key", "node:literal-expr", "node:un:-", "node:un:~",
-                    "node:eq", "node:bin:arith", "follow-up:orig:setv", "follow-up:copy:setv", "follow-up:both:sete"]
+                    "node:eq", "node:bin:arith", "follow-up:orig:setv", "follow-up:copy:setv", "follow-up:both:sete",
+                    "default-container:items-and-attributes-mixed"]
 
 TEMPLATES = ["abs", "round0", "round1", "round_ref", "divmod", "divmod_ref", "floor", "ceil", "trunc", "neg", "pos",
              "invert", "eq", "neq", "litexpr", "call_pos", "call_kw", "call_kw_ref", "comp_item", "bitand", "shift",
@@ -360,6 +361,132 @@ def exec_case(ctx, case):
     return finish(None, nt)
 
 
+# ------------------------------------------------------------------ the manager's own default container
+# Manager.ref() without a container creates xdeps' AttrDict, whose entries are reachable as items AND as attributes.
+DC_KEYS = ["a", "b", "c", "x", "y"]
+dc_numbers = st.one_of(st.integers(-9, 9), st.sampled_from([0.5, 1.5, -2.25, 3.0]))
+
+
+@st.composite
+def dc_cases(draw):
+    def access():
+        return [draw(st.sampled_from(["item", "attr"])), draw(st.sampled_from(DC_KEYS))]
+
+    def statement():
+        tgt = access()
+        if draw(st.integers(0, 2)) == 0:
+            return {"target": tgt, "value": draw(dc_numbers)}
+        reads = [access() for _ in range(draw(st.integers(1, 2)))]
+        reads = [r for r in reads if r[1] != tgt[1]] or [[tgt[0], next(k for k in DC_KEYS if k != tgt[1])]]
+        return {"target": tgt, "reads": reads, "op": draw(st.sampled_from(["+", "*", "-"])), "k": draw(dc_numbers)}
+    return {"kind": "default-container", "init": {k: draw(dc_numbers) for k in DC_KEYS},
+            "before": [statement() for _ in range(draw(st.integers(1, 5)))],
+            "after": [dict(statement(), who=draw(st.sampled_from(["both", "both", "orig", "copy"])))
+                      for _ in range(draw(st.integers(2, 6)))]}
+
+
+def dc_exec(ctx, case):
+    """original and unpickled copy of a manager over its default container run the same statements; after every one the
+    two containers must show the same entries through BOTH views (items and attributes), and the other manager's
+    container must be untouched by a one-sided statement"""
+    import pickle
+    import xdeps
+
+    def get(r, acc):
+        return r[acc[1]] if acc[0] == "item" else getattr(r, acc[1])
+
+    def run(r, stm):
+        if "value" in stm:
+            v = stm["value"]
+        else:
+            v = get(r, stm["reads"][0])
+            for acc in stm["reads"][1:]:
+                v = E.BINOPS[stm["op"]](v, get(r, acc))
+            v = E.BINOPS[stm["op"]](v, stm["k"])
+        if stm["target"][0] == "item":
+            r[stm["target"][1]] = v
+        else:
+            setattr(r, stm["target"][1], v)
+
+    def views(r):
+        o = r._owner
+        return ({k: repr(v) for k, v in sorted(dict(o).items())},
+                {k: repr(v) for k, v in sorted(vars(o).items())})
+
+    def text(stm):
+        t = (f"r[{stm['target'][1]!r}]" if stm["target"][0] == "item" else f"r.{stm['target'][1]}")
+        if "value" in stm:
+            return f"{t} = {stm['value']!r}"
+        rs = [(f"r[{k!r}]" if h == "item" else f"r.{k}") for h, k in stm["reads"]]
+        return f"{t} = {(' ' + stm['op'] + ' ').join(rs)} {stm['op']} {stm['k']!r}"
+    rendered = {"container": "Manager.ref(label='r') default (xdeps AttrDict)", "init": case["init"],
+                "before_pickle": [text(s) for s in case["before"]],
+                "follow_up": [f"[{s['who']}] {text(s)}" for s in case["after"]]}
+    classes = ["default-container"]
+    m = xdeps.Manager()
+    r = m.ref(label="r")
+    for k, v in case["init"].items():
+        r[k] = v
+    try:
+        for stm in case["before"]:
+            run(r, stm)
+    except Exception:
+        ctx.stats.case(rendered, False, classes + ["default-container:history-raises"])
+        return None
+    mixed = len({s["target"][0] for s in case["before"] + case["after"]} |
+                {a[0] for s in case["before"] + case["after"] for a in s.get("reads", [])}) == 2
+    nt = mixed and any("reads" in s for s in case["before"])
+    if mixed:
+        classes.append("default-container:items-and-attributes-mixed")
+    try:
+        m2 = pickle.loads(pickle.dumps(m))
+    except Exception as e:
+        ctx.stats.case(rendered, nt, classes)
+        return Failure(f"C12:default-container:pickle-raises:{type(e).__name__}", dict(rendered, raised=repr(e)[:200]))
+    r2 = m2.containers["r"]
+    if views(r) != views(r2) or views(r)[0] != views(r)[1]:
+        ctx.stats.case(rendered, nt, classes)
+        return Failure("C12:default-container:contents-differ", dict(rendered, step="after the round trip",
+                       original=views(r), copy=views(r2)))
+    for i, stm in enumerate(case["after"]):
+        before = (views(r), views(r2))
+        outs = []
+        for who, rr in (("orig", r), ("copy", r2)):
+            if stm["who"] in ("both", who):
+                try:
+                    run(rr, stm)
+                    outs.append(None)
+                except Exception as e:
+                    outs.append(type(e).__name__)
+        if stm["who"] == "both":
+            if outs[0] != outs[1]:
+                ctx.stats.case(rendered, nt, classes)
+                return Failure("C12:default-container:exception-differs", dict(rendered, step=i, original=outs[0], copy=outs[1]))
+            if views(r) != views(r2):
+                ctx.stats.case(rendered, nt, classes)
+                return Failure("C12:default-container:contents-differ", dict(rendered, step=i, original=views(r), copy=views(r2)))
+        elif stm["who"] == "orig" and views(r2) != before[1]:
+            ctx.stats.case(rendered, nt, classes)
+            return Failure("C12:default-container:not-independent", dict(rendered, step=i, changed="copy"))
+        elif stm["who"] == "copy" and views(r) != before[0]:
+            ctx.stats.case(rendered, nt, classes)
+            return Failure("C12:default-container:not-independent", dict(rendered, step=i, changed="original"))
+        if stm["who"] != "both":
+            # bring the other side along so that the comparison stays meaningful
+            try:
+                run(r2 if stm["who"] == "orig" else r, stm)
+            except Exception:
+                pass
+    for mm in (m, m2):
+        try:
+            mm.verify()
+        except Exception as e:
+            ctx.stats.case(rendered, nt, classes)
+            return Failure("C12:default-container:verify-raises", dict(rendered, raised=repr(e)[:200]))
+    ctx.stats.case(rendered, nt, classes)
+    return None
+
+
 def run(ctx):
     n = ctx.n(200, 2000)
     opts = H.Opts(ftasks=False, knobs=False, maint=False, max_ops=20, eq=True)
@@ -367,7 +494,10 @@ def run(ctx):
     def body(case):
         return exec_case(ctx, case)
     drive(ctx, cases(opts), body, n, salt=1, label="C12")
+    drive(ctx, dc_cases(), lambda c: dc_exec(ctx, c), max(50, n // 2), salt=2, label="C12 default container")
 
 
 def replay(ctx, case):
+    if case.get("kind") == "default-container":
+        return dc_exec(ctx, case)
     return exec_case(ctx, case)
